@@ -40,6 +40,9 @@ pub const KINDS: [ErrorKind; 6] = [
 ];
 
 pub struct FragReader<'a> {
+    /// deliver the fault once and then carry on normally (a transient failure), instead of failing every
+    /// later call as well; ErrorKind::Interrupted is always transient
+    pub transient: bool,
     data: &'a [u8],
     pos: usize,
     frag: Frag,
@@ -53,6 +56,7 @@ pub struct FragReader<'a> {
 impl<'a> FragReader<'a> {
     pub fn new(data: &'a [u8], frag: Frag, seed: u64, fail_at: usize, fault: Fault) -> Self {
         FragReader {
+            transient: seed % 2 == 1,
             data,
             pos: 0,
             frag,
@@ -72,7 +76,7 @@ impl<'a> Read for FragReader<'a> {
             return Ok(0);
         }
         if let Fault::Err(kind) = self.fault {
-            if self.pos >= self.fail_at && (!self.delivered_fault || kind != ErrorKind::Interrupted) {
+            if self.pos >= self.fail_at && (!self.delivered_fault || (kind != ErrorKind::Interrupted && !self.transient)) {
                 self.delivered_fault = true;
                 // both shapes of io::Error: with a payload and "simple" (kind only, no message, no OS code)
                 return Err(if self.calls % 2 == 0 { io::Error::new(kind, "injected read fault") } else { io::Error::from(kind) });
@@ -94,6 +98,7 @@ impl<'a> Read for FragReader<'a> {
 }
 
 pub struct FragWriter {
+    pub transient: bool,
     pub accepted: Vec<u8>,
     frag: Frag,
     rng: Rng,
@@ -106,6 +111,7 @@ pub struct FragWriter {
 impl FragWriter {
     pub fn new(frag: Frag, seed: u64, fail_at: usize, fault: Fault) -> Self {
         FragWriter {
+            transient: seed % 2 == 1,
             accepted: vec![],
             frag,
             rng: Rng::new(seed),
@@ -126,14 +132,16 @@ impl Write for FragWriter {
         if self.fault != Fault::None && self.accepted.len() >= self.fail_at {
             match self.fault {
                 Fault::Err(kind) => {
-                    if !self.delivered_fault || kind != ErrorKind::Interrupted {
+                    if !self.delivered_fault || (kind != ErrorKind::Interrupted && !self.transient) {
                         self.delivered_fault = true;
                         return Err(if self.calls % 2 == 0 { io::Error::new(kind, "injected write fault") } else { io::Error::from(kind) });
                     }
                 }
                 Fault::Zero => {
-                    self.delivered_fault = true;
-                    return Ok(0);
+                    if !self.delivered_fault || !self.transient {
+                        self.delivered_fault = true;
+                        return Ok(0);
+                    }
                 }
                 Fault::None => {}
             }
